@@ -970,3 +970,105 @@ def options_are_live(ctx, rule, class_qnames, exempt=()):
                       f"the constructor stores `self.{a}` but no method of the class (or its bases / subclasses) reads it: the option has no effect - "
                       f"whatever was configured, a default or another value is used in its place")
     ctx.need(n >= 1, f"options: no constructor option found in {list(class_qnames)}")
+
+
+# ---------------------------------------------------------------- derived values are computed from the current arrays
+_MEMO_DECORATORS = ("cached_property", "functools.cached_property", "lru_cache", "functools.lru_cache", "cache", "functools.cache")
+
+
+def _self_attr_reads(fn_node):
+    return {x.attr for x in ast.walk(fn_node) if isinstance(x, ast.Attribute) and isinstance(x.ctx, ast.Load) and isinstance(x.value, ast.Name) and x.value.id == "self"}
+
+
+def _self_attr_stores(fn_node):
+    out = set()
+    for st in walk_own(fn_node):
+        tg = st.targets if isinstance(st, ast.Assign) else ([st.target] if isinstance(st, (ast.AugAssign, ast.AnnAssign)) and getattr(st, "value", True) is not None else [])
+        for t in tg:
+            for e in (t.elts if isinstance(t, ast.Tuple) else [t]):
+                root = e
+                while isinstance(root, ast.Subscript):
+                    root = root.value
+                if isinstance(root, ast.Attribute) and isinstance(root.value, ast.Name) and root.value.id == "self":
+                    out.add(root.attr)
+    return out
+
+
+def no_stale_memo(ctx, rule, owner="batchie.data.Screen", views=("batchie.data.ScreenSubset", "batchie.data.Plate")):
+    """A screen is mutable (`set_observed` writes observations and the mask in place), so everything derived from those arrays -
+    `single_treatment_effects`, `is_observed`, the observed subset - is only right when computed from the arrays as they are now.
+    A getter that keeps its result (an attribute written by a method without inputs, or a caching decorator) must be reset by every
+    method that mutates the state it was computed from; a view cannot be told when its screen changes, so it keeps nothing derived from
+    the screen's mutable state.  Today nothing is kept: the rule reports the scan and fires on the first memo that is not reset."""
+    R = ctx.R
+    ms = R.methods(owner)
+    ctx.need(len(ms) >= 10, f"{owner}: methods not found")
+    mutators, state = {}, set()
+    for nm, f in ms.items():
+        if nm == "__init__" or len(f.params) < 2:
+            continue
+        st = _self_attr_stores(f.node)
+        if st:
+            mutators[nm] = f
+            state |= st
+    ctx.need(mutators, f"{owner}: no mutating method (set_observed) found")
+    # getters of the owner whose value depends on mutable state (transitively through other getters / helper methods of the class)
+    reads = {nm: _self_attr_reads(f.node) for nm, f in ms.items()}
+    dep = {nm for nm, r in reads.items() if r & state}
+    grew = True
+    while grew:
+        grew = False
+        for nm, r in reads.items():
+            if nm not in dep and r & dep:
+                dep.add(nm)
+                grew = True
+    n_get = 0
+    problems = []
+    for nm, f in sorted(ms.items()):
+        if nm == "__init__" or nm in mutators:
+            continue
+        n_get += 1
+        decos = [U(d.func if isinstance(d, ast.Call) else d) for d in f.node.decorator_list]
+        memo_attrs = _self_attr_stores(f.node) if len(f.params) == 1 else set()
+        by_deco = any(d in _MEMO_DECORATORS for d in decos)
+        if not memo_attrs and not by_deco:
+            continue
+        if nm not in dep:
+            continue                                            # keeps a value that does not depend on the mutable arrays
+        tests = {x.attr for t in walk_own(f.node) if isinstance(t, (ast.If, ast.IfExp)) for x in ast.walk(t.test)
+                 if isinstance(x, ast.Attribute) and isinstance(x.value, ast.Name) and x.value.id == "self"}
+        flags = (memo_attrs & tests) or memo_attrs
+        for mn, mf in sorted(mutators.items()):
+            if not (_self_attr_stores(mf.node) & (reads[nm] | {a for d_ in dep & reads[nm] for a in reads.get(d_, ())}) & state) and not (reads[nm] & dep):
+                continue
+            resets = _self_attr_stores(mf.node) & flags
+            text = U(mf.node)
+            cleared = by_deco and (f"'{nm}'" in text or f'"{nm}"' in text or f"{nm}.cache_clear" in text or f"del self.{nm}" in text)
+            if not resets and not cleared:
+                problems.append((f, nm, mn, sorted(memo_attrs) or decos))
+    for f, nm, mn, what in problems:
+        ctx.bad(rule, f"{f.site()}::recomputed-after-{mn}", f"`{nm}` keeps its result ({what}) and `{mn}` does not reset it: after {mn}(..) the screen still answers with the value "
+                f"computed from the old observations")
+    if not problems:
+        ctx.ok(rule, f"{owner}::derived-values-follow-mutation", f"{n_get} getter(s) scanned, state {sorted(state)} mutated by {sorted(mutators)}: no kept result depends on it without being reset")
+    mutable_props = dep
+    for vq in views:
+        vm = R.methods(vq)
+        if not vm:
+            continue
+        bad = []
+        for nm, f in sorted(vm.items()):
+            if nm == "__init__" or len(f.params) != 1:
+                continue
+            decos = [U(d.func if isinstance(d, ast.Call) else d) for d in f.node.decorator_list]
+            keeps = _self_attr_stores(f.node) or any(d in _MEMO_DECORATORS for d in decos)
+            if not keeps:
+                continue
+            via_screen = {x.attr for x in ast.walk(f.node) if isinstance(x, ast.Attribute) and U(x.value) == "self.screen"}
+            own = _self_attr_reads(f.node)
+            if via_screen & mutable_props or own & (mutable_props - {"screen"}) & set(vm) :
+                bad.append((f, nm, sorted(via_screen & mutable_props) or sorted(own & mutable_props)))
+        for f, nm, why in bad:
+            ctx.bad(rule, f"{f.site()}::view-keeps-nothing-mutable", f"the view's `{nm}` keeps a value derived from the screen's mutable {why}: the view is not told when the screen changes")
+        if not bad:
+            ctx.ok(rule, f"{vq}::view-keeps-nothing-mutable", f"{len(vm)} method(s) scanned: no getter of the view keeps a value derived from the screen's mutable state")
